@@ -53,6 +53,20 @@ class IsRewriter(ast.NodeTransformer):
                 args=[node.left, node.right], keywords=[]), node)
         return node
 
+    def visit_Call(self, node):
+        """`b"literal".join(seq)` -> __sx_join__(b"literal", seq): bytes.join
+        unless an element is a symbolic byte string."""
+        self.generic_visit(node)
+        f = node.func
+        if isinstance(f, ast.Attribute) and f.attr == "join" and \
+                isinstance(f.value, ast.Constant) and \
+                isinstance(f.value.value, bytes) and \
+                len(node.args) == 1 and not node.keywords:
+            return ast.copy_location(ast.Call(
+                func=ast.Name(id="__sx_join__", ctx=ast.Load()),
+                args=[f.value, node.args[0]], keywords=[]), node)
+        return node
+
 
 POST_LOAD = []      # callables(module) run after each nfc module is executed
 
@@ -75,6 +89,7 @@ class Loader(importlib.abc.Loader):
         g["__sx_is__"] = core.sx_is
         g["__sx_isnot__"] = core.sx_isnot
         g["__sx_mod__"] = sbytes.sx_mod
+        g["__sx_join__"] = sbytes.sx_join
         exec(code, g)
         for f in POST_LOAD:
             f(module)
